@@ -82,23 +82,26 @@ Proof. exact fcontract_of_acc. Qed.
 
 (* the contract is not vacuous for the modelled printf/strtod: binary64 1/3, -0, nan, inf, the least subnormal,
    1e22, 123456, 0.0001, binary32 0.1f and FLT_MAX print as glibc prints them and come back within the stated digits *)
+(* printf with the precisions the property names (independent of Gen.v, so that these examples do not depend on the
+   constants of the tree under check) *)
+Definition F16 (sz : nat) (e : list byte) : list byte := fmt_g (if (sz =? 8)%nat then 16 else 7) (classify (fp_of sz) e).
 Example C04_fmt_model_examples :
-  F_model 8 [x55; x55; x55; x55; x55; x55; xd5; x3f] = [x30; x2e; x33; x33; x33; x33; x33; x33; x33; x33; x33; x33; x33; x33; x33; x33; x33; x33]
-  /\ F_model 8 [x00; x00; x00; x00; x00; x00; x00; x80] = [x2d; x30]
-  /\ F_model 8 [x01; x00; x00; x00; x00; x00; x00; x00] = [x34; x2e; x39; x34; x30; x36; x35; x36; x34; x35; x38; x34; x31; x32; x34; x36; x35; x65; x2d; x33; x32; x34]
-  /\ F_model 8 [x92; xd5; x4d; x06; xcf; xf0; x80; x44] = [x31; x65; x2b; x32; x32]
-  /\ F_model 8 [x00; x00; x00; x00; x00; x24; xfe; x40] = [x31; x32; x33; x34; x35; x36]
-  /\ F_model 8 [x2d; x43; x1c; xeb; xe2; x36; x1a; x3f] = [x30; x2e; x30; x30; x30; x31]
-  /\ F_model 4 [xcd; xcc; xcc; x3d] = [x30; x2e; x31]
-  /\ F_model 4 [xff; xff; x7f; x7f] = [x33; x2e; x34; x30; x32; x38; x32; x33; x65; x2b; x33; x38]
+  F16 8 [x55; x55; x55; x55; x55; x55; xd5; x3f] = [x30; x2e; x33; x33; x33; x33; x33; x33; x33; x33; x33; x33; x33; x33; x33; x33; x33; x33]
+  /\ F16 8 [x00; x00; x00; x00; x00; x00; x00; x80] = [x2d; x30]
+  /\ F16 8 [x01; x00; x00; x00; x00; x00; x00; x00] = [x34; x2e; x39; x34; x30; x36; x35; x36; x34; x35; x38; x34; x31; x32; x34; x36; x35; x65; x2d; x33; x32; x34]
+  /\ F16 8 [x92; xd5; x4d; x06; xcf; xf0; x80; x44] = [x31; x65; x2b; x32; x32]
+  /\ F16 8 [x00; x00; x00; x00; x00; x24; xfe; x40] = [x31; x32; x33; x34; x35; x36]
+  /\ F16 8 [x2d; x43; x1c; xeb; xe2; x36; x1a; x3f] = [x30; x2e; x30; x30; x30; x31]
+  /\ F16 4 [xcd; xcc; xcc; x3d] = [x30; x2e; x31]
+  /\ F16 4 [xff; xff; x7f; x7f] = [x33; x2e; x34; x30; x32; x38; x32; x33; x65; x2b; x33; x38]
   /\ P_model 8 [x30; x2e; x31] = [x9a; x99; x99; x99; x99; x99; xb9; x3f]
   /\ P_model 4 [x33; x2e; x34; x30; x32; x38; x32; x33; x65; x2b; x33; x38] = [xfd; xff; x7f; x7f]
-  /\ fcell_ok_b F_model P_model 8 [x55; x55; x55; x55; x55; x55; xd5; x3f] = true
-  /\ fcell_ok_b F_model P_model 8 [x01; x00; x00; x00; x00; x00; x00; x00] = true
-  /\ fcell_ok_b F_model P_model 8 [x00; x00; x00; x00; x00; x00; xf8; xff] = true
-  /\ fcell_ok_b F_model P_model 8 [x00; x00; x00; x00; x00; x00; xf0; xff] = true
-  /\ fcell_ok_b F_model P_model 4 [xff; xff; x7f; x7f] = true
-  /\ fcell_ok_b F_model P_model 4 [xcd; xcc; xcc; x3d] = true.
+  /\ fcell_ok_b F16 P_model 8 [x55; x55; x55; x55; x55; x55; xd5; x3f] = true
+  /\ fcell_ok_b F16 P_model 8 [x01; x00; x00; x00; x00; x00; x00; x00] = true
+  /\ fcell_ok_b F16 P_model 8 [x00; x00; x00; x00; x00; x00; xf8; xff] = true
+  /\ fcell_ok_b F16 P_model 8 [x00; x00; x00; x00; x00; x00; xf0; xff] = true
+  /\ fcell_ok_b F16 P_model 4 [xff; xff; x7f; x7f] = true
+  /\ fcell_ok_b F16 P_model 4 [xcd; xcc; xcc; x3d] = true.
 Proof. vm_compute. repeat split; reflexivity. Qed.
 
 (* ---- the full statement ("for every single-character delimiter", strings with leading blanks) is false
